@@ -178,6 +178,10 @@ def minimize(ast, kind, di, info):
 
 def root_class(ast):
     k = ast[0]
+    if k in ("bin", "un"):
+        return k + ast[1]
+    if k == "filter" or k == "test":
+        return k + ":" + ast[2]
     if k == "cmp":
         return "chain" if len(ast[2]) > 1 else "cmp"
     if k in ("and", "or"):
@@ -351,7 +355,7 @@ SPACES = {}
 def space(name):
     if name not in SPACES:
         SPACES[name] = {
-            "d2-quick": lambda: G.ShapeSpace([G.FORMS, G.FORMS_REP_SMALL], 2),
+            "d2-quick": lambda: G.ShapeSpace([G.FORMS_FEW_CHAINS, G.FORMS_REP_SMALL], 2),
             "d2-all-x-rep": lambda: G.ShapeSpace([G.FORMS, G.FORMS_REP], 2),
             "d2-rep-x-all": lambda: G.ShapeSpace([G.FORMS_REP_SMALL, G.FORMS], 2),
             "d3-ops": lambda: G.ShapeSpace([G.FORMS_OPS3, G.FORMS_OPS3, G.FORMS_OPS3], None),
@@ -371,7 +375,7 @@ def shape_shard(arg):
             continue
         has_pow = G.shape_pows(shape) > 0
         label = shape[0].name
-        for vi in (vec_ids if not rotate_vecs else (vec_ids[i % len(vec_ids)],)):
+        for vi in (vec_ids if not rotate_vecs else G.MIXED_VECTORS + (vec_ids[i % len(vec_ids)],)):
             ast = G.fill(shape, G.LEAF_VECTORS[vi])
             if has_pow:
                 ast = G.clamp_for_pow(ast, 3 if sname.startswith("d2") else 2)
@@ -446,17 +450,18 @@ def run(ctx: core.Ctx):
     ctx.pmap(depth1_shard, [(quick, i) for i in range(len(G.FORMS))])
     _phase("depth1")
     # (c) shapes: (space, leaf vectors, all four environments?, one vector per shape in rotation?, shard size)
+    # rotation = the two mixed constant/variable vectors + one of the listed vectors per shape
     if quick:
-        plan = [("d2-quick", (0, 1, 2, 3), False, True, 1500), ("d2-ops", (0, 1, 2), True, False, 100)]
+        plan = [("d2-quick", (0, 1, 2, 3), False, True, 500), ("d2-ops", (0, 1, 4), True, False, 100)]
     else:
-        plan = [("d2-all-x-rep", (0, 1, 2, 3), False, True, 2000), ("d2-rep-x-all", (0, 1, 2, 3), False, True, 2000),
-                ("d2-quick", (0, 1, 2, 3), True, True, 1000), ("d2-ops", (0, 1, 2, 3), True, False, 100),
-                ("d3-ops", (0, 1), False, False, 3000)]
+        plan = [("d2-all-x-rep", (0, 1, 2, 3), False, True, 1000), ("d2-rep-x-all", (0, 1, 2, 3), False, True, 1000),
+                ("d2-quick", (0, 1, 2, 3), True, True, 300), ("d2-ops", (0, 1, 2, 3, 4, 5), True, False, 100),
+                ("d3-ops", (0, 4), False, False, 3000)]
     shards = []
     bounds = {}
     for sname, vecs, all_envs, rotate, chunk in plan:
         n = space(sname).count()
-        bounds[sname] = {"shapes": n, "leaf_vectors": len(vecs), "one_vector_per_shape_in_rotation": rotate,
+        bounds[sname] = {"shapes": n, "leaf_vectors": len(vecs), "two_mixed_vectors_plus_one_in_rotation_per_shape": rotate,
                          "all_four_environments": all_envs}
         shards += [(quick, sname, a, b, vecs, all_envs, rotate) for a, b in ranges(n, chunk)]
     ctx.pmap(shape_shard, shards)
